@@ -109,6 +109,33 @@ impl SBoard {
             None => None,
         }
     }
+    /// field-by-field equality (derived `==` on the arrays compiles to a memcmp loop, which
+    /// would need its own unwinding bound in every harness)
+    pub fn same(&self, o: &SBoard) -> bool {
+        self.colors[0] == o.colors[0]
+            && self.colors[1] == o.colors[1]
+            && self.pieces[0] == o.pieces[0]
+            && self.pieces[1] == o.pieces[1]
+            && self.pieces[2] == o.pieces[2]
+            && self.pieces[3] == o.pieces[3]
+            && self.pieces[4] == o.pieces[4]
+            && self.pieces[5] == o.pieces[5]
+            && self.turn == o.turn
+            && self.rights == o.rights
+            && self.ep == o.ep
+            && self.half == o.half
+            && self.full == o.full
+    }
+    pub fn same_placement(&self, o: &SBoard) -> bool {
+        self.colors[0] == o.colors[0]
+            && self.colors[1] == o.colors[1]
+            && self.pieces[0] == o.pieces[0]
+            && self.pieces[1] == o.pieces[1]
+            && self.pieces[2] == o.pieces[2]
+            && self.pieces[3] == o.pieces[3]
+            && self.pieces[4] == o.pieces[4]
+            && self.pieces[5] == o.pieces[5]
+    }
     pub fn king_sq(&self, color: u8) -> u8 {
         self.of(color, KING).trailing_zeros() as u8
     }
